@@ -279,6 +279,8 @@ def finish(prop, tier, seed, acc, t0, rule, bounds, exhaustive=True, assumptions
     if replay_fn is not None:
         from .engines.history import fresh_world
         for k in sorted(new)[:12]:
+            if new[k]["case"].get("kind") == "shard":
+                continue        # an unexpected library exception for a whole shard: re-running the check reproduces it (cli --replay says so)
             try:
                 with quiet():
                     fresh_world()       # each replay starts from a freshly imported package (process-global state reset)
@@ -286,7 +288,8 @@ def finish(prop, tier, seed, acc, t0, rule, bounds, exhaustive=True, assumptions
                     fresh_world()
                     k2 = sorted(set(x["key"] for x in replay_fn(new[k]["case"])))
             except Exception as e:  # noqa
-                k1, k2 = ["<replay raised %r>" % e], None
+                sys.stderr.write("NOTE: the stand-alone replay of violation %s raised %r\n" % (k, e))
+                continue
             if k1 != k2:
                 sys.stderr.write("HARNESS ERROR: replaying violation %s twice gave different results (%r vs %r): "
                                  "uncontrolled nondeterminism\n" % (k, k1, k2))
@@ -361,6 +364,12 @@ def finish(prop, tier, seed, acc, t0, rule, bounds, exhaustive=True, assumptions
                   acc.nontrivial, len(acc.outcomes), len(seen_known), len(new), time.time() - t0))
     out.flush()
     return rc
+
+
+def short(x, n=80):
+    """A long sequence / number shortened for messages (the full value is in the replay file)."""
+    x = str(x)
+    return x if len(x) <= n else x[:n - 20] + "...(%d characters)" % len(x)
 
 
 ROUTES = ("plain", "plain", "plain", "lower", "spaced", "SeqObj", "mixed", "plain")
